@@ -15,7 +15,7 @@ RULE = ("value trees (matrix / random / maximal) over matrix schema, G-schema se
         "by the independent spec-level codec (permute records recursively, packed<->unpacked, packed split into chunks "
         "incl. an empty chunk, non-minimal varints in values / lengths / tags, duplicated singular scalars and other "
         "oneof members before the final one, interleaved unknown records); the oracle is the reference decoder's view of "
-        "the very same bytes. distinct = distinct (schema, type, tree) and (op, bytes) pairs.")
+        "the very same bytes. Interleaved records may also carry the number of a KNOWN field with a wire type that does not fit it (the reference keeps those as unknown fields). distinct = distinct (schema, type, tree) and (op, bytes) pairs.")
 ASSUMPTIONS = [
     "a singular message-typed field is never duplicated (merge of duplicated sub-messages is outside the property's list)",
     "an encoding is used only if google.protobuf accepts it; rejected ones are counted as discards",
